@@ -430,4 +430,59 @@ Section RefineMerge.
     rewrite smerge_cons. now apply merge2s_sched.
   Qed.
 
+
+  (** ** two sorted arrangements of the same rows carry the same keys at the
+      same positions (so any two complete runs of the scheduler on the same
+      inputs differ only by the order of rows with equal keys) *)
+  Definition cle (a : row) (l : list row) : nat := length (filter (fun y => rcmp y a <=? 0) l).
+
+  Lemma cle_perm a l1 l2 : Permutation l1 l2 -> cle a l1 = cle a l2.
+  Proof.
+    unfold cle. induction 1 as [|x l l' _ IH|x y l|l l' l'' _ IH1 _ IH2]; cbn; try lia.
+    - destruct (rcmp x a <=? 0); cbn; lia.
+    - destruct (rcmp x a <=? 0), (rcmp y a <=? 0); cbn; lia.
+  Qed.
+
+  Lemma cle_lower l : forall i x, sorted l -> nth_error l i = Some x -> (i < cle x l)%nat.
+  Proof.
+    induction l as [|y l IH]; intros [|i] x Hs Hx; cbn in Hx; try discriminate.
+    - inversion Hx; subst. unfold cle. cbn [filter]. unfold Model.rcmp. rewrite (cmp_refl K cmp cmp_opp). cbn. lia.
+    - inversion Hs as [|? ? Hs' Hf]; subst. rewrite Forall_forall in Hf.
+      assert (Hyx : rle y x) by (apply Hf; eapply nth_error_In; eauto).
+      specialize (IH i x Hs' Hx). unfold cle in *. cbn [filter].
+      destruct (Z.leb_spec (rcmp y x) 0); [cbn; lia|unfold rle in Hyx; lia].
+  Qed.
+
+  Lemma cle_upper l : forall i a b, sorted l -> nth_error l i = Some b -> rcmp a b < 0 -> (cle a l <= i)%nat.
+  Proof.
+    induction l as [|y l IH]; intros [|i] a b Hs Hb Hab; cbn in Hb; try discriminate.
+    - inversion Hb; subst. unfold cle.
+      assert (E : filter (fun z => rcmp z a <=? 0) (b :: l) = []).
+      { clear IH. assert (Hall : forall z, In z (b :: l) -> (rcmp z a <=? 0) = false).
+        { intros z Hz. pose proof (sorted_head_le K cmp cmp_opp _ _ _ Hs Hz) as Hbz.
+          destruct (Z.leb_spec (rcmp z a) 0) as [Hza|]; [|reflexivity]. exfalso.
+          assert (rcmp a z < 0).
+          { unfold Model.rcmp in *. apply (cmp_lt_le_trans K cmp cmp_opp cmp_trans) with (key b); assumption. }
+          unfold Model.rcmp in *. pose proof (cmp_opp (key a) (key z)). lia. }
+        revert Hall. generalize (b :: l). intros l0. induction l0 as [|z l0 IH0]; intros Hall; [reflexivity|].
+        cbn [filter]. rewrite (Hall z (or_introl eq_refl)). apply IH0. intros w Hw. apply Hall. now right. }
+      rewrite E. cbn. lia.
+    - inversion Hs as [|? ? Hs' Hf]; subst. specialize (IH i a b Hs' Hb Hab). unfold cle in *. cbn [filter].
+      destruct (rcmp y a <=? 0); cbn; lia.
+  Qed.
+
+  Theorem sorted_perm_same_keys l1 l2 i a b :
+    sorted l1 -> sorted l2 -> Permutation l1 l2 ->
+    nth_error l1 i = Some a -> nth_error l2 i = Some b -> rcmp a b = 0.
+  Proof.
+    intros H1 H2 Hp Ha Hb.
+    destruct (Z_lt_le_dec (rcmp a b) 0) as [Hlt|Hge].
+    - pose proof (cle_lower _ _ _ H1 Ha). pose proof (cle_upper _ _ _ _ H2 Hb Hlt).
+      rewrite (cle_perm a _ _ Hp) in *. lia.
+    - destruct (Z_lt_le_dec (rcmp b a) 0) as [Hlt'|Hge'].
+      + pose proof (cle_lower _ _ _ H2 Hb). pose proof (cle_upper _ _ _ _ H1 Ha Hlt').
+        rewrite (cle_perm b _ _ Hp) in *. lia.
+      + unfold Model.rcmp in *. pose proof (cmp_opp (key a) (key b)). pose proof (cmp_opp (key b) (key a)). lia.
+  Qed.
+
 End RefineMerge.
